@@ -332,6 +332,16 @@ func (prop) Generate(rng *core.Rand, tier string, emit0 func(string)) {
 			emit(fmt.Sprintf("rs %s %s S:-:1pk;K;S:r:2pk;P:3dk;P:3dk;K;S:-:4d;P:5pk;K;S:r:6nk", e, fl))
 		}
 	}
+	// @id tags through the admin API: POST /load of documents that differ from the running one only in
+	// ids (added, renamed, removed), sub-path writes (PATCH /config/apps/…) and writes through /id/…;
+	// after every returned push the autosave file must be the document the server holds, ids included
+	for _, e := range []string{"x-h1", "x0h1"} {
+		for _, fl := range []string{".", "x=2"} {
+			emit(fmt.Sprintf("rs %s %s S:-:1p;P:1pi;P:1pu;P:1p;P:1pi;K;S:r:9d;P:1p;K;S:r:9d", e, fl))
+			emit(fmt.Sprintf("rs %s %s S:-:1p;Q:1pi;I:1pu;I:2d;Q:2di;I:3nu;Q:5px;Q:5d;K;S:r:9d;I:6p", e, fl))
+			emit(fmt.Sprintf("rs %s %s S:-:1n;P:1ni;P:2di;P:2du;I:2d;Q:2di;I:2d;K;S:r:9n", e, fl))
+		}
+	}
 	rrs := rng.Fork()
 	nRS := 12
 	if tier == "thorough" {
@@ -363,7 +373,11 @@ func (prop) Generate(rng *core.Rand, tier string, emit0 func(string)) {
 				if rrs.Chance(1, 5) && next > 2 {
 					n = 1 + rrs.Intn(next-1) // push an earlier number again
 				}
-				evs = append(evs, fmt.Sprintf("P:%d%s%s", n, rrs.Pick([]string{"p", "p", "d", "n"}), x))
+				idl := ""
+				if x == "" && rrs.Chance(1, 2) {
+					idl = rrs.Pick([]string{"i", "u"})
+				}
+				evs = append(evs, fmt.Sprintf("%s:%d%s%s%s", rrs.Pick([]string{"P", "P", "P", "Q", "I"}), n, rrs.Pick([]string{"p", "p", "d", "n"}), x, idl))
 			}
 		}
 		evs = append(evs, "K", "S:r:99d")
@@ -471,7 +485,7 @@ func (prop) Generate(rng *core.Rand, tier string, emit0 func(string)) {
 	// ---- malformed
 	bad := []string{"ca", "ca ", "ca x", "ca l", "ca l:", "ca l:0cb", "ca l:3xx", "ca m:-", "ca l:-;", "ca l:-;;l:-", "ca l:-3cb", "ca m", "ca m:", "ca m:0cb", "ca m:-:-", "ca d:xx", "ca c:rc", "ca c:rc>zz", "ca d:", "ca c:rc>rk>ik",
 		"as", "as L", "as L1", "as L1:d", "as L1:q:-", "as L1:d:K0", "as L1:d:X1", "as L1:dd:-", "as Lx:d:-", "as R;", "as L1:d:K1;L2:d:F1", "as U:", "as u", "as L1:d:-;UU",
-		"rs", "rs x-h1", "rs x-h1 .", "rs x-h1 . Q", "rs xzh1 . K", "rs x-h1 x=- K", "rs x-h1 x=2,x=3 K", "rs x-h1 . S:r:1px", "rs x-h1 . P:1q", "rs x-h1 . S:z:1p", "rs x-h1dz . K", "rs x-h1d . K", "rs x-h1 d=- K", "rs x-h1 . S:-:1pxk", "rs x-h1 . S:-:c1dk", "rs x-h1 . S:-:c1p", "rs x-h1 . S:-:c1nx", "rs x-h1 . P:c1d", "rs x-h1 . S:-:c", "fs", "fs l", "fs l:K0", "fs l:X1", "fs m:-", "fs l:-;", "fs l:3cb", "zz l:-", "ca l:- extra", "as L1:dff:-", "ca l:1cb:2", "as L1:d:-:3"}
+		"rs", "rs x-h1", "rs x-h1 .", "rs x-h1 . Q", "rs xzh1 . K", "rs x-h1 x=- K", "rs x-h1 x=2,x=3 K", "rs x-h1 . S:r:1px", "rs x-h1 . P:1q", "rs x-h1 . S:z:1p", "rs x-h1dz . K", "rs x-h1d . K", "rs x-h1 d=- K", "rs x-h1 . S:-:1pxk", "rs x-h1 . S:-:c1dk", "rs x-h1 . Q:1pk", "rs x-h1 . I:c1d", "rs x-h1 . P:1piu", "rs x-h1 . Q:1pv", "rs x-h1 . S:-:1pik", "rs x-h1 . S:-:c1p", "rs x-h1 . S:-:c1nx", "rs x-h1 . P:c1d", "rs x-h1 . S:-:c", "fs", "fs l", "fs l:K0", "fs l:X1", "fs m:-", "fs l:-;", "fs l:3cb", "zz l:-", "ca l:- extra", "as L1:dff:-", "ca l:1cb:2", "as L1:d:-:3"}
 	for _, b := range bad {
 		emit(b)
 	}
